@@ -3,6 +3,7 @@ package main
 // rule_layout.go — R-LAYOUT (C06).
 
 import (
+	"go/constant"
 	"go/token"
 	"strings"
 
@@ -20,6 +21,27 @@ func (m *Model) RunLayout(s *Sink, rule string) {
 	// ApplyInserts
 	ai := m.Method("ast", "Program", "ApplyInserts")
 	cui := m.Method("ast", "Program", "checkUndefinedInsert")
+	// the search for an insert that names no reserve may also be a function that returns what it found and leaves the
+	// error to ApplyInserts: the ast function ApplyInserts hands its inserts to
+	verdictIdx := -1 // result of cui that says "found one" (a bool), when it does not return the error itself
+	if ai != nil && cui == nil {
+		for _, b := range ai.Blocks {
+			for _, in := range b.Instrs {
+				c, ok := in.(*ssa.Call)
+				if !ok || c.Call.StaticCallee() == nil || !inPkg(c.Call.StaticCallee(), "ast") || c.Call.StaticCallee().Blocks == nil {
+					continue
+				}
+				for _, a := range c.Call.Args {
+					if a == ssa.Value(ai.Params[1]) { // the inserts
+						res := c.Call.StaticCallee().Signature.Results()
+						if res.Len() >= 1 && isBoolT(res.At(res.Len()-1).Type()) {
+							cui, verdictIdx = c.Call.StaticCallee(), res.Len()-1
+						}
+					}
+				}
+			}
+		}
+	}
 	if ai == nil || cui == nil {
 		s.Undecided(rule, "ApplyInserts", "-", "ApplyInserts / checkUndefinedInsert not found")
 	} else {
@@ -34,6 +56,14 @@ func (m *Model) RunLayout(s *Sink, rule string) {
 			for _, b := range ai.Blocks {
 				if ret, ok := b.Instrs[len(b.Instrs)-1].(*ssa.Return); ok && ret.Results[0] == ssa.Value(chk) {
 					okChk = true
+				}
+				// the searching form: under "found one" an error is returned
+				if ret, ok := b.Instrs[len(b.Instrs)-1].(*ssa.Return); ok && verdictIdx >= 0 && !isNilConst(ret.Results[0]) {
+					for _, f := range expandFacts(factsAt(b)) {
+						if ex, isEx := f.Cond.(*ssa.Extract); isEx && f.Holds && ex.Tuple == ssa.Value(chk) && ex.Index == verdictIdx {
+							okChk = true
+						}
+					}
 				}
 			}
 		}
@@ -77,7 +107,16 @@ func (m *Model) RunLayout(s *Sink, rule string) {
 		okAll, n := true, 0
 		for _, b := range cui.Blocks {
 			ret, isRet := b.Instrs[len(b.Instrs)-1].(*ssa.Return)
-			if !isRet || !isNilConst(ret.Results[0]) {
+			if !isRet {
+				continue
+			}
+			if verdictIdx >= 0 {
+				// "found none": the verdict result is false
+				k, isK := retSource(ret, verdictIdx).(*ssa.Const)
+				if !isK || k.Value == nil || k.Value.Kind() != constant.Bool || constant.BoolVal(k.Value) {
+					continue
+				}
+			} else if !isNilConst(ret.Results[0]) {
 				continue
 			}
 			n++
